@@ -404,17 +404,22 @@ Proof. exact CBitsProofs.c_push_uint_var_is_model. Qed.
 Print Assumptions c_push_uint_var_is_model.
 
 Theorem c_pull_uintN_is_model : forall bs, bytes_ok bs ->
-  c_pull_uint8 bs = pull_uint8 bs /\ c_pull_uint16 bs = pull_uint16 bs /  c_pull_uint32 bs = pull_uint32 bs /\ c_pull_uint64 bs = pull_uint64 bs.
+  c_pull_uint8 bs = pull_uint8 bs /\ c_pull_uint16 bs = pull_uint16 bs /\
+  c_pull_uint32 bs = pull_uint32 bs /\ c_pull_uint64 bs = pull_uint64 bs.
 Proof. exact CBitsProofs.c_pull_uintN_is_model. Qed.
 Print Assumptions c_pull_uintN_is_model.
 
 Theorem c_push_uintN_is_model : forall v,
-  c_push_uint8 v = push_uint8 v /\ c_push_uint16 v = push_uint16 v /  c_push_uint32 v = push_uint32 v /\ c_push_uint64 v = push_uint64 v.
+  c_push_uint8 v = push_uint8 v /\ c_push_uint16 v = push_uint16 v /\
+  c_push_uint32 v = push_uint32 v /\ c_push_uint64 v = push_uint64 v.
 Proof. exact CBitsProofs.c_push_uintN_is_model. Qed.
 Print Assumptions c_push_uintN_is_model.
 
 Theorem c_signed_ops_defined : forall bs v, bytes_ok bs ->
-  c_signed_ok_pull_uint8 bs /\ c_signed_ok_pull_uint16 bs /\ c_signed_ok_pull_uint32 bs /  c_signed_ok_pull_uint64 bs /\ c_signed_ok_pull_uint_var bs /  c_signed_ok_push_uint8 v /\ c_signed_ok_push_uint16 v /\ c_signed_ok_push_uint32 v /  c_signed_ok_push_uint64 v /\ c_signed_ok_push_uint_var v.
+  c_signed_ok_pull_uint8 bs /\ c_signed_ok_pull_uint16 bs /\ c_signed_ok_pull_uint32 bs /\
+  c_signed_ok_pull_uint64 bs /\ c_signed_ok_pull_uint_var bs /\
+  c_signed_ok_push_uint8 v /\ c_signed_ok_push_uint16 v /\ c_signed_ok_push_uint32 v /\
+  c_signed_ok_push_uint64 v /\ c_signed_ok_push_uint_var v.
 Proof. exact CBitsProofs.c_signed_ops_defined. Qed.
 Print Assumptions c_signed_ops_defined.
 
@@ -424,6 +429,9 @@ Proof. exact CBitsProofs.c_varint_roundtrip. Qed.
 Print Assumptions c_varint_roundtrip.
 
 Theorem c_fixed_roundtrip : forall v rest, bytes_ok rest ->
-  (0 <= v < 2 ^ 8 -> exists bs, c_push_uint8 v = Ok bs /\ c_pull_uint8 (bs ++ rest) = Ok (v, rest)) /  (0 <= v < 2 ^ 16 -> exists bs, c_push_uint16 v = Ok bs /\ c_pull_uint16 (bs ++ rest) = Ok (v, rest)) /  (0 <= v < 2 ^ 32 -> exists bs, c_push_uint32 v = Ok bs /\ c_pull_uint32 (bs ++ rest) = Ok (v, rest)) /  (0 <= v < 2 ^ 64 -> exists bs, c_push_uint64 v = Ok bs /\ c_pull_uint64 (bs ++ rest) = Ok (v, rest)).
+  (0 <= v < 2 ^ 8 -> exists bs, c_push_uint8 v = Ok bs /\ c_pull_uint8 (bs ++ rest) = Ok (v, rest)) /\
+  (0 <= v < 2 ^ 16 -> exists bs, c_push_uint16 v = Ok bs /\ c_pull_uint16 (bs ++ rest) = Ok (v, rest)) /\
+  (0 <= v < 2 ^ 32 -> exists bs, c_push_uint32 v = Ok bs /\ c_pull_uint32 (bs ++ rest) = Ok (v, rest)) /\
+  (0 <= v < 2 ^ 64 -> exists bs, c_push_uint64 v = Ok bs /\ c_pull_uint64 (bs ++ rest) = Ok (v, rest)).
 Proof. exact CBitsProofs.c_fixed_roundtrip. Qed.
 Print Assumptions c_fixed_roundtrip.
